@@ -38,10 +38,14 @@ class RegionInterp(I.Interp):
             else sched.ancestor(N.Routine)
         self.var_cells = None      # name -> list of cells (set on entry)
         self.known = None          # id(cell) -> True for the routine's cells
+        self.on_entry = None       # optional callback(interp) once the cells
+        #                            of the routine (locals included) exist
 
     def exec_schedule(self, sched, frame):
         if sched is self.main and self.var_cells is None:
             self._collect_cells(frame)
+            if self.on_entry is not None:
+                self.on_entry(self)
         if sched is not self.region_sched:
             super().exec_schedule(sched, frame)
             return
